@@ -50,13 +50,6 @@ theorem C13_roundtrip_b64 {Data : Type} (c : Codec Data)
     loadValue (withBase64 c) key (writeValue (withBase64 c) key d) = .ok (some d) :=
   C13_roundtrip (withBase64 c) ⟨hjson, hzip, Poor.Base64.decode_encode⟩ key d hd hne
 
-/-- the codec with JSON and base64 made concrete: only the compression module remains a parameter -/
-def jsonCodec (compress : Bytes → Bytes) (decompress : Bytes → Option Bytes) : Codec Poor.Json.J :=
-  { dumps := Poor.Json.dumpBytes, loads := Poor.Json.loadBytes,
-    isDict := fun d => match d with | .obj _ => true | _ => false,
-    compress := compress, decompress := decompress,
-    b64enc := Poor.Base64.encode, b64dec := Poor.Base64.decode }
-
 /-- **round trip with JSON and base64 proved**: for every dictionary of well-formed JSON values, every key stream
     and every compression module that inverts itself, the cookie value restores an equal dictionary. -/
 theorem C13_roundtrip_json (compress : Bytes → Bytes) (decompress : Bytes → Option Bytes)
@@ -72,6 +65,30 @@ theorem C13_roundtrip_json (compress : Bytes → Bytes) (decompress : Bytes → 
   simp only [Bool.false_eq_true, if_false]
   unfold writeValue
   simp only [jsonCodec, Poor.Base64.decode_encode, hzip, hidden_involutive, hj, if_true]
+
+theorem drun_data {Data : Type} (c : Codec Data) (key : Bytes) (s : DSt Data) (ops : List (DOp Data)) :
+    (drun c key s ops).data = lastData s.data ops := by
+  induction ops generalizing s with
+  | nil => rfl
+  | cons op ops ih =>
+    simp only [drun, List.foldl_cons] at ih ⊢
+    rw [ih]
+    cases op <;> rfl
+
+/-- **the cookie a session emits is the cookie of its current data, at any point of its life**: after any history
+    of assignments, writes, earlier `header()` calls and `destroy()`, the value `header()` puts into the cookie loads
+    back to the data the session holds at that moment - not to what it held when a value was first written. -/
+theorem C13_header_current {Data : Type} (c : Codec Data) (hl : Laws c) (key : Bytes) (s0 : DSt Data)
+    (ops : List (DOp Data)) (hd : c.isDict (lastData s0.data ops) = true)
+    (hne : (writeValue c key (lastData s0.data ops)).isEmpty = false) :
+    loadValue c key (drun c key s0 (ops ++ [.header])).value = .ok (some (lastData s0.data ops)) := by
+  have hv : (drun c key s0 (ops ++ [.header])).value = writeValue c key (lastData s0.data ops) := by
+    simp only [drun, List.foldl_append, List.foldl_cons, List.foldl_nil, dstep]
+    have := drun_data c key s0 ops
+    simp only [drun] at this
+    rw [this]
+  rw [hv]
+  exact C13_roundtrip c hl key _ hd hne
 
 /-- the cookie value is empty only for an empty compressed payload (which no compression module produces) -/
 theorem C13_value_nonempty {Data : Type} (c : Codec Data) (key : Bytes) (d : Data)
